@@ -342,7 +342,15 @@ fn gen_ops(r: &mut Rng, pool: &Model, nvars_initial: usize) -> Vec<Op> {
                     ops.push(Op::Satisfy);
                 }
             }
-            4 | 5 => ops.push(Op::Satisfy),
+            4 => ops.push(Op::Satisfy),
+            5 => {
+                // a plain solve which is interrupted after a few polls (sometimes it finishes before)
+                if r.chance(2, 3) {
+                    ops.push(Op::SatisfyInterrupted(r.below(7)))
+                } else {
+                    ops.push(Op::Satisfy)
+                }
+            }
             6 => {
                 let sub = Model { vars: pool.vars[..nvars].to_vec(), cons: vec![] };
                 ops.push(Op::Assume(gen_assumptions(r, &sub), r.chance(2, 3)));
